@@ -72,7 +72,7 @@ func TestVerifBackendOverlap(t *testing.T) {
 				if r%2 == 0 {
 					shared.ClassifyLicenses(1+r, files, true)
 				} else {
-					ctx, cancel := context.WithTimeout(context.Background(), time.Minute)
+					ctx, cancel := context.WithTimeout(context.Background(), 6*time.Hour) // never fires: a run that timed out would leave tasks appending behind it
 					defer cancel()
 					shared.ClassifyLicensesWithContext(ctx, 2+r, files, true)
 				}
